@@ -363,7 +363,7 @@ Section Open.
         destruct ops as [|o2 ops]; cbn [Writer.run_from] in Hk.
         * injection Hk as <-. exists st0, cat, info. split; [apply ext_refl | auto].
         * unfold Writer.step, Writer.step0 in Hk. rewrite Ca in Hk.
-          destruct (accepts _ _ _) in Hk; discriminate.
+          destruct (accepts _ _ _ _) in Hk; discriminate.
       + destruct (step_inv _ _ _ _ _ _ _ _ _ _ SI Hb) as [_ [[S1 _]|F]].
         * destruct (IH _ _ S1 Ca Hk Hc) as [st1 [cat [info [E [S2 Hcl]]]]]. exists st1, cat, info.
           split; [eapply ext_trans; [eapply step_ext; eassumption | exact E] | auto].
